@@ -16,6 +16,11 @@ res "suite with change: $suite"
 case "$suite" in *" 0 failed") ;; *) res "FAIL: suite fails with change"; git checkout -q -- .; exit 1;; esac
 demo_with="n/a"; demo_without="n/a"
 if [ -f "$out/demo.rs" ]; then
+  line=$(head -1 "$out/demo.rs" | sed -n 's|^// cargo-flags: *||p' | sed 's|[(;].*||')
+  case "$line" in *--release*) feat="$feat --release";; esac
+  case "$line" in *--no-default-features*) feat="$feat --no-default-features";; esac
+  f2=$(echo "$line" | grep -o -- '--features [a-z,]*' | head -1)
+  case "$feat" in *--features*) ;; *) feat="$feat $f2";; esac
   cp "$out/demo.rs" tests/zz_demo.rs
   if cargo test --offline $feat --test zz_demo >/dev/null 2>&1; then demo_with="passes"; else demo_with="fails"; fi
   git checkout -q -- .
